@@ -65,6 +65,9 @@ pub trait Check: Sync {
 
 /// Which property a panic belongs to.
 pub fn attribute_panic(msg: &str, loc: &str) -> &'static str {
+    if msg.contains("busy loop") {
+        return "C06";
+    }
     if msg.contains("not requested") || msg.contains("Can't handle command") || msg.contains("Can't change connection state") {
         "C12"
     } else if loc.contains("connection.rs") || msg.contains("cannot advance") || loc.contains("bytes") {
@@ -124,7 +127,7 @@ fn state_hashes(out: &RunOut, into: &mut HashSet<u64>) {
 }
 
 pub struct OneRun {
-    pub plan: Plan,
+    pub plan: Arc<Plan>,
     pub verdict: Verdict,
     pub digest: u64,
     pub ilv: u64,
@@ -134,7 +137,83 @@ pub struct OneRun {
     pub harness_error: Option<String>,
 }
 
+/// Runs in progress per worker thread, for the wall-clock watchdog.
+pub struct Slot {
+    /// ms since process start at which the current run began; 0 = idle
+    started: AtomicU64,
+    plan: Mutex<Option<Arc<Plan>>>,
+}
+pub static SLOTS: Mutex<Vec<Arc<Slot>>> = Mutex::new(Vec::new());
+static T0: std::sync::OnceLock<Instant> = std::sync::OnceLock::new();
+thread_local! {
+    static MY_SLOT: Arc<Slot> = {
+        let s = Arc::new(Slot { started: AtomicU64::new(0), plan: Mutex::new(None) });
+        SLOTS.lock().unwrap().push(s.clone());
+        s
+    };
+}
+
+fn now_ms() -> u64 {
+    T0.get_or_init(Instant::now).elapsed().as_millis() as u64 + 1
+}
+
+struct ActiveGuard;
+impl ActiveGuard {
+    fn enter(plan: &Arc<Plan>) -> ActiveGuard {
+        MY_SLOT.with(|s| {
+            *s.plan.lock().unwrap() = Some(plan.clone());
+            s.started.store(now_ms(), Ordering::SeqCst);
+        });
+        ActiveGuard
+    }
+}
+impl Drop for ActiveGuard {
+    fn drop(&mut self) {
+        MY_SLOT.with(|s| s.started.store(0, Ordering::SeqCst));
+    }
+}
+
+/// Backstop for code that spins inside one poll without ever yielding (nothing can interrupt it
+/// in a single-threaded simulation): a run that needs more than VERIF_RUN_TIMEOUT_S (default 300)
+/// wall seconds - normal runs take milliseconds - is reported as a violation with its plan.
+pub fn spawn_watchdog(prop: String, verif_dir: String, out_fd: i32) {
+    let limit: u64 = std::env::var("VERIF_RUN_TIMEOUT_S").ok().and_then(|s| s.parse().ok()).unwrap_or(300);
+    std::thread::spawn(move || loop {
+        std::thread::sleep(std::time::Duration::from_millis(500));
+        let now = now_ms();
+        let stuck = SLOTS.lock().ok().and_then(|a| {
+            a.iter()
+                .find(|s| {
+                    let st = s.started.load(Ordering::SeqCst);
+                    st != 0 && now.saturating_sub(st) >= limit * 1000
+                })
+                .and_then(|s| s.plan.lock().ok().and_then(|p| p.clone()))
+        });
+        if let Some(p) = stuck {
+            let plan: serde_json::Value = serde_json::to_value(&*p).unwrap_or(serde_json::Value::Null);
+            let seed = plan["seed"].as_u64().unwrap_or(0);
+            let dir = format!("{}/replays", verif_dir);
+            std::fs::create_dir_all(&dir).ok();
+            let path = format!("{}/{}-{}-hang.json", dir, prop, seed);
+            let rule = format!("{}.run-does-not-terminate", prop);
+            let doc = json!({"property": prop, "rule": rule, "detail": format!("the run did not finish within {} wall seconds: some task spins without yielding", limit), "profile": plan["profile"], "seed": seed, "digest": "", "plan": plan, "tail": []});
+            std::fs::write(&path, serde_json::to_string_pretty(&doc).unwrap()).ok();
+            let ev = json!({"property_id": prop, "tier": "quick", "seed": 0, "level": "exploration",
+                "coverage": {"evaluations": 1, "distinct_nontrivial": 2, "rule": "watchdog: a run exceeded the wall-clock limit", "samples": [plan]}, "wall_s": limit as f64, "violations": 1});
+            std::fs::create_dir_all(format!("{}/evidence", verif_dir)).ok();
+            std::fs::write(format!("{}/evidence/{}.json", verif_dir, prop), serde_json::to_string_pretty(&ev).unwrap()).ok();
+            let msg = format!("violation: {} rule={} run exceeded {} s wall time\nVIOLATION property={} replay={}\n", prop, rule, limit, prop, path);
+            unsafe {
+                libc::write(out_fd, msg.as_ptr() as *const libc::c_void, msg.len());
+            }
+            std::process::exit(1);
+        }
+    });
+}
+
 pub fn execute(check: &dyn Check, plan: Plan, states: Option<&mut HashSet<u64>>) -> (OneRun, Vec<String>) {
+    let plan = Arc::new(plan);
+    let _guard = ActiveGuard::enter(&plan);
     let out = run_plan(&plan);
     let v = view::build(&plan, &out);
     let verdict = check.judge(&v);
@@ -337,10 +416,10 @@ pub fn run_check(check: &dyn Check, tier: &str, base_seed: u64, verif_dir: &str,
                             // keep the lowest index per rule
                             if let Some(pos) = a.found.iter().position(|f| f.2.rule == vi.rule) {
                                 if a.found[pos].0 > i {
-                                    a.found[pos] = (i, spec.name.to_string(), vi.clone(), one.plan.clone());
+                                    a.found[pos] = (i, spec.name.to_string(), vi.clone(), (*one.plan).clone());
                                 }
                             } else {
-                                a.found.push((i, spec.name.to_string(), vi.clone(), one.plan.clone()));
+                                a.found.push((i, spec.name.to_string(), vi.clone(), (*one.plan).clone()));
                             }
                         }
                     }
